@@ -17,12 +17,12 @@ open NitroVerif NitroVerif.Peg NitroVerif.Build NitroVerif.Gen
 def ruleName (r : RuleId) : String := (ruleNames[r]?).getD s!"rule#{r}"
 
 def panicText : Panic → String
-  | .partsExpected w (some g) => s!"parts:Expected {ruleName w}, actual {ruleName g}"
-  | .partsExpected w none => s!"parts:Expected {ruleName w}, actual nothing"
-  | .onlyChildNone r => s!"only_child:0 children of {ruleName r}"
-  | .onlyChildMany r => s!"only_child:2 or more children of {ruleName r}"
-  | .allChildren w g => s!"all_children:Expected {ruleName w}, actual {ruleName g}"
-  | .unexpectedRule site r => s!"unexpected:{ruleName r} in {site}"
+  | .partsExpected w (some g) => s!"parts:{ruleName w}:{ruleName g}"
+  | .partsExpected w none => s!"parts:{ruleName w}:nothing"
+  | .onlyChildNone r => s!"only-child-0:{ruleName r}"
+  | .onlyChildMany r => s!"only-child-many:{ruleName r}"
+  | .allChildren w g => s!"all-children:{ruleName w}:{ruleName g}"
+  | .unexpectedRule _ _ => "unexpected"
   | .emptyDocument => "empty-document"
   | .unknownOperationType => "unknown-operation-type"
   | .unknownEscape => "unknown-escape"
